@@ -66,8 +66,9 @@ func (m *Machine) freshVar(name string, k types.BasicKind) *Sym {
 	default:
 		srt = smt.BV(kindWidth(k))
 	}
-	t := m.ctx.Var(n, srt)
-	p.Inputs = append(p.Inputs, InputRec{Name: n, Kind: types.Typ[k].Name(), Vars: []string{n}})
+	vn := n + "~" + types.Typ[k].Name() // the SMT symbol carries the kind: one name may be reused at another width on another path
+	t := m.ctx.Var(vn, srt)
+	p.Inputs = append(p.Inputs, InputRec{Name: n, Kind: types.Typ[k].Name(), Vars: []string{vn}})
 	if kindIsFloat(k) {
 		return &Sym{T: m.ctx.FFromBV(t), K: k}
 	}
@@ -122,8 +123,8 @@ func init() {
 	reg(vfPkg+".Str", func(m *Machine, fr *frame, fn *ssa.Function, args []value) value {
 		name := mustString(args[0], "zzvf.Str")
 		un := m.path.uniqueName(name)
-		m.path.Inputs = append(m.path.Inputs, InputRec{Name: un, Kind: "str", Vars: []string{un}})
-		return ostr{m.ctx.Var(un, smt.StrSort)}
+		m.path.Inputs = append(m.path.Inputs, InputRec{Name: un, Kind: "str", Vars: []string{un + "~str"}})
+		return ostr{m.ctx.Var(un+"~str", smt.StrSort)}
 	})
 	reg(vfPkg+".Choose", func(m *Machine, fr *frame, fn *ssa.Function, args []value) value {
 		name := mustString(args[0], "zzvf.Choose")
